@@ -10,6 +10,7 @@ import (
 	"fmt"
 	"math"
 	"reflect"
+	"runtime"
 	"sort"
 	"strconv"
 	"strings"
@@ -183,5 +184,32 @@ func H_SELF_stdlib_numbers() {
 		w := fmt.Errorf("ctx: %w", e)
 		verifObserve("err", e.Error(), w.Error(), errors.Is(w, e), errors.Unwrap(w) == e, fmt.Sprint(s, n), fmt.Sprintln(n))
 	}
+	verifReach("end")
+}
+
+func H_SELF_channels() {
+	ch := make(chan int, 2)
+	un := make(chan string)
+	done := make(chan struct{})
+	sum := 0
+	verifSchedAll(1)
+	go func() {
+		for v := range ch {
+			sum += v
+		}
+		s := <-un
+		sum += len(s)
+		close(done)
+	}()
+	ch <- 1
+	ch <- 2
+	ch <- 3
+	close(ch)
+	un <- "four"
+	<-done
+	_, ok := <-ch
+	verifObserve("sum", sum, ok, len(ch), cap(ch), runtime.GOMAXPROCS(0) >= 1)
+	verifAssert(sum == 10, "channel model: producer/consumer")
+	verifAssert(verifRaces() == 0, "channel operations order the accesses")
 	verifReach("end")
 }
